@@ -649,6 +649,11 @@ static __always_inline int build_dhcp_options(__u8 *opt, void *data_end,
 /* Look up subscriber by MAC address */
 static __always_inline struct pool_assignment *lookup_subscriber(
 		struct dhcp_packet *dhcp) {
+	/* subscriber_pools is keyed by a 6-byte hardware address.  The control
+	 * plane caches a client under this key only if its address is 6 bytes
+	 * long; any other client (hlen != 6) is served by the slow path. */
+	if (dhcp->hlen != ETH_ALEN)
+		return NULL;
 	__u64 mac_addr = mac_to_u64(dhcp->chaddr);
 	return bpf_map_lookup_elem(&subscriber_pools, &mac_addr);
 }
